@@ -28,7 +28,7 @@ import (
 
 var logOnce sync.Once
 
-func quietLogs() {
+func QuietLogs() {
 	logOnce.Do(func() {
 		lvl := os.Getenv("VERIF_LOG")
 		if lvl == "" {
@@ -45,7 +45,7 @@ func quietLogs() {
 
 // Bubble runs f inside a synctest bubble (fake clock starting at 2000-01-01) and returns f's panic, if any.
 func Bubble(t *testing.T, f func()) (panicVal any) {
-	quietLogs()
+	QuietLogs()
 	defer func() {
 		if r := recover(); r != nil {
 			panicVal = r
@@ -243,7 +243,7 @@ func (n *Node) StartNode() error {
 	if n.Alive {
 		return errors.New("already alive")
 	}
-	quietLogs()
+	QuietLogs()
 	n.Incarnation++
 	n.epoch = n.Fence.Epoch()
 	n.Halted = nil
